@@ -1,5 +1,6 @@
 """C23 - Formatting a program preserves its meaning."""
 import json
+import os
 import vlib
 import langcheck
 
@@ -31,6 +32,47 @@ def judge(rec):
     return bad, rej
 
 
+def mfmt_command(ctx, recs, cases):
+    """cmd/mfmt itself (the property's other anchor): the command's standard output, and the file it rewrites with -write,
+    are the text the Unparser produced for that source - the text whose reparse was compared above."""
+    import subprocess
+    from concurrent.futures import ThreadPoolExecutor
+    mfmt = vlib.build(ctx, "./cmd/mfmt", name="mfmt")
+    d = ctx.sub("mfmt")
+    todo = []
+    for c in cases:
+        o = recs[c["seed"]].get("min") or {}
+        if "formatted" in o and "input_rejected" not in o and "fail" not in o:
+            todo.append((c["seed"], o["src"], o["formatted"]))
+
+    def one(t):
+        seed, src, want = t
+        a, b = os.path.join(d, "p%d.mtail" % seed), os.path.join(d, "w%d.mtail" % seed)
+        for p in (a, b):
+            with open(p, "w") as f:
+                f.write(src)
+        r1 = subprocess.run([mfmt, "-logtostderr", "-prog", a], capture_output=True, text=True, timeout=60)
+        r2 = subprocess.run([mfmt, "-logtostderr", "-prog", b, "-write"], capture_output=True, text=True, timeout=60)
+        with open(b) as f:
+            written = f.read()
+        bad = []
+        if r1.returncode != 0 or r1.stdout != want:
+            bad.append("mfmt -prog: exit %d, output differs from the Unparser's text: %r" % (r1.returncode, (r1.stdout or r1.stderr)[:200]))
+        if r2.returncode != 0 or written != want:
+            bad.append("mfmt -write: exit %d, rewritten file differs from the Unparser's text: %r" % (r2.returncode, (written or r2.stderr)[:200]))
+        return seed, src, want, bad
+    with ThreadPoolExecutor(max_workers=max(1, min(vlib.NCPU, 8))) as ex:
+        res = list(ex.map(one, todo))
+    ctx.cov["mfmt_command_runs"] = 2 * len(res)
+    ctx.cov["evaluations"] += 2 * len(res)
+    for seed, src, want, bad in res:
+        if bad and not ctx.enough():
+            _s, _src, _w, bad2 = one((seed, src, want))
+            if bad2:
+                ctx.violation({"kind": "mfmt", "seed": seed, "source": src, "unparser_text": want, "mismatches": bad2},
+                              "seed %d: %s; Unparser text %r" % (seed, bad2[0][:300], want[:160]))
+
+
 def run(ctx):
     binary = vlib.build(ctx, "fmtcheck")
     n = 3000 if ctx.thorough else 400
@@ -55,6 +97,8 @@ def run(ctx):
                 mode = "full" if bad2[0].startswith("[full]") else "min"
                 ctx.violation({"seed": c["seed"], "source": again[mode]["src"], "formatted": again[mode].get("formatted"), "mismatches": bad2[:3]},
                               "seed %d: %s" % (c["seed"], bad2[0][:300]))
+    if not ctx.violations:
+        mfmt_command(ctx, recs, cases)
     if rejected > 0.02 * 2 * n:
         raise vlib.InfraError("%d of %d generated sources were rejected by the parser/checker: generator out of step with the grammar" % (rejected, 2 * n))
     ctx.cov["distinct_nontrivial"] = len(cases)
@@ -68,6 +112,9 @@ def run(ctx):
 def replay(ctx, path):
     binary = vlib.build(ctx, "fmtcheck")
     rc = json.load(open(path))["case"]
+    if rc.get("kind") == "mfmt":
+        mfmt_command(ctx, {rc["seed"]: {"min": {"src": rc["source"], "formatted": rc["unparser_text"]}}}, [{"seed": rc["seed"]}])
+        return
     rec = [x for x in vlib.run_harness(ctx, binary, cases=[{"seed": rc["seed"], "src": rc["source"]}]) if "seed" in x][0]
     bad, _ = judge(rec)
     if bad:
